@@ -35,7 +35,7 @@ let bit b = if b then '1' else '0'
 
 let run_case storing ids listen dispatch =
   let idv = Array.of_list (List.map (function
-      | [t; n] -> anyid_make (z_of_int (ios t)) (z_of_int (ios n))
+      | [t; n] -> if ios t < 0 || ios t > 3 || ios n < 0 then failwith "bad source value" else anyid_make (z_of_int (ios t)) (z_of_int (ios n))
       | w -> failwith ("bad id: " ^ String.concat " " w)) ids) in
   let n = Array.length idv in
   Printf.printf "storage %s\n" (if storing then "val" else "empty");
